@@ -34,6 +34,9 @@ type RTask struct {
 	FileDep bool     `json:"file_dep"`
 	Deps    []string `json:"deps,omitempty"`
 	Cmds    []RCmd   `json:"cmds"`
+	// OutVar: the task declares this variable as its (named) output; a variable that is also an
+	// output is still listed and substituted with the value the spokfile gives it
+	OutVar string `json:"out_var,omitempty"`
 }
 
 // RAction is one invocation of a C20 case.
@@ -98,6 +101,9 @@ func genReportBody(t *rapid.T) ReportCase {
 				rt.Deps = append(rt.Deps, names[j])
 			}
 		}
+		if nv > 0 && rapid.IntRange(0, 2).Draw(t, "named_output") == 0 {
+			rt.OutVar = c.Vars[rapid.IntRange(0, nv-1).Draw(t, "which_output")][0]
+		}
 		nc := rapid.IntRange(0, 4).Draw(t, "ncmds")
 		for k := 0; k < nc; k++ {
 			rc := RCmd{Out: rapid.SampledFrom(payloads).Draw(t, "out"), Err: rapid.SampledFrom(payloads).Draw(t, "err")}
@@ -151,7 +157,11 @@ func (c ReportCase) source() string {
 			args = append(args, `"in.txt"`)
 		}
 		args = append(args, t.Deps...)
-		fmt.Fprintf(&b, "task %s(%s) {\n", t.Name, strings.Join(args, ", "))
+		if t.OutVar != "" {
+			fmt.Fprintf(&b, "task %s(%s) -> %s {\n", t.Name, strings.Join(args, ", "), t.OutVar)
+		} else {
+			fmt.Fprintf(&b, "task %s(%s) {\n", t.Name, strings.Join(args, ", "))
+		}
 		for ci := range t.Cmds {
 			b.WriteString("    " + c.cmdText(ti, ci, false, nil) + "\n")
 		}
